@@ -220,6 +220,77 @@ fn build_tablet_cluster(peers: &[PeerSpec], kss: &[Strat], tablets: &[TabletSpec
     cs
 }
 
+/// The state of a `thplan` history (see `run`): `ClusterState::new` with per-peer verdicts, the tablets learnt one by one,
+/// then filtered full / topology-only refreshes; keyspace `k0` stays tablet based with table `t` throughout.  After every
+/// step the REAL pool presence of every peer must be the host filter's verdict (messages returned).
+fn build_tablet_history(
+    steps: &[(&str, &str)],
+    parsed: &[Vec<PeerSpec>],
+    kss: &[Strat],
+    learnt: &[TabletSpec],
+) -> (ClusterState, Vec<String>) {
+    use scylla::verif_hooks::cluster::{cluster_refresh_topology_filtered, cluster_state_filtered};
+    let specs = |peers: &[PeerSpec]| -> Vec<NodeSpec> {
+        peers
+            .iter()
+            .map(|p| NodeSpec {
+                host_id: host_id(p.id),
+                datacenter: p.dc.map(dc_name),
+                rack: p.rack.map(rack_name),
+                tokens: p.tokens.clone(),
+                enabled: !p.flags.contains('d'),
+                connected: !p.flags.contains('x'),
+            })
+            .collect()
+    };
+    let accepted = |peers: &[PeerSpec]| -> Vec<uuid::Uuid> {
+        peers.iter().filter(|p| p.flags.contains('a')).map(|p| host_id(p.id)).collect()
+    };
+    let ksv: Vec<KeyspaceSpec> =
+        kss.iter().enumerate().map(|(i, s)| KeyspaceSpec { name: format!("k{}", i), strategy: to_strategy(s) }).collect();
+    let mut tables: HashMap<String, Vec<String>> = HashMap::new();
+    tables.insert("k0".to_owned(), vec!["t".to_owned()]);
+    let none: HashMap<String, Vec<String>> = HashMap::new();
+    let mut msgs: Vec<String> = Vec::new();
+    let mut check_pools = |state: &ClusterState, i: usize| {
+        for p in &parsed[i] {
+            let real = node_has_pool(state, host_id(p.id));
+            if real != Some(p.flags.contains('a')) {
+                msgs.push(format!(
+                    "after step {} ({}): node {} has_pool={:?} but the host filter's verdict was {}",
+                    i + 1,
+                    steps[i].0,
+                    p.id,
+                    real,
+                    if p.flags.contains('a') { "accept" } else { "reject" }
+                ));
+            }
+        }
+    };
+    let mut state =
+        block_on(cluster_state_filtered(None, &specs(&parsed[0]), &ksv, &tables, &none, &[], &accepted(&parsed[0])));
+    check_pools(&state, 0);
+    for (first, last, reps) in learnt {
+        let r: Vec<(uuid::Uuid, u32)> = reps.iter().map(|(h, s)| (host_id(*h), *s)).collect();
+        state.verif_update_tablets(&[("k0".to_owned(), "t".to_owned(), *first, *last, r)]);
+    }
+    for i in 1..steps.len() {
+        // the overrides of the previous state's nodes as its own metadata imposed them
+        for node in state.get_nodes_info() {
+            let id = node_id(node.host_id);
+            let flags = parsed[i - 1].iter().find(|p| p.id == id).map(|p| p.flags.as_str()).unwrap_or("");
+            node.verif_override_state(!flags.contains('d'), !flags.contains('x'));
+        }
+        state = if steps[i].0 == "F" {
+            block_on(cluster_state_filtered(Some(&state), &specs(&parsed[i]), &ksv, &tables, &none, &[], &accepted(&parsed[i])))
+        } else {
+            block_on(cluster_refresh_topology_filtered(&state, &specs(&parsed[i]), &accepted(&parsed[i])))
+        };
+        check_pools(&state, i);
+    }
+    (state, msgs)
+}
+
 fn cluster(
     topo_s: &str,
     peers: &[PeerSpec],
@@ -366,6 +437,14 @@ pub fn run(case: &str, ctx: &mut Ctx) -> String {
     // nodes `flip` (host ids, comma separated) is inverted between the first and the second `Plan::next()`: `pick()` runs
     // on one liveness snapshot, the lazily called `fallback()` on another (model: `PlanRefresh.plan2`)
     let is_xplan = !w.is_empty() && (w[0] == "xplan" || w[0].starts_with("xplan."));
+    // thplan: `thplan <n> (<mode> <topology>)xn <keyspaces> <config> <request> <tablets> <samples>` - a TABLET table (k0, t)
+    // on a refresh HISTORY: step 1 is `N` (ClusterState::new with one host-filter verdict per peer), the tablets are learnt
+    // right after it (update_tablets; replica host ids unknown at that moment stay unresolved until the next refresh), the
+    // steps 2..n are filtered refreshes `F` (new_updated) / `G` (new_with_updated_topology) in which nodes are re-created
+    // (datacenter / rack / address / verdict change), leave and join: TabletsInfo::perform_maintenance runs in every one.
+    // Plans are computed on the last state and judged against the LAST metadata and the tablets that survive
+    let is_thplan = !w.is_empty() && (w[0] == "thplan" || w[0].starts_with("thplan."));
+    let mut is_tplan = is_tplan;
     let mut flip: Vec<u64> = Vec::new();
     let w: Vec<&str> = if is_xplan {
         if w.len() != 7 {
@@ -402,6 +481,20 @@ pub fn run(case: &str, ctx: &mut Ctx) -> String {
         let t = &w[2 + 2 * n..];
         history = Some(steps);
         vec!["plan", last, t[0], t[1], t[2], t[3]]
+    } else if is_thplan {
+        let Some(n) = w.get(1).and_then(|x| x.parse::<usize>().ok()) else { return "bad-case".into() };
+        if n == 0 || n > 64 || w.len() != 2 + 2 * n + 5 {
+            return "bad-case".into();
+        }
+        let steps: Vec<(&str, &str)> = (0..n).map(|i| (w[2 + 2 * i], w[3 + 2 * i])).collect();
+        if steps[0].0 != "N" || steps[1..].iter().any(|(m, _)| !["F", "G"].contains(m)) {
+            return "bad-case".into();
+        }
+        let last = steps[n - 1].1;
+        let t = &w[2 + 2 * n..];
+        history = Some(steps);
+        is_tplan = true;
+        vec!["tplan", last, t[0], t[1], t[2], t[3], t[4]]
     } else {
         w
     };
@@ -446,7 +539,7 @@ pub fn run(case: &str, ctx: &mut Ctx) -> String {
                 for e in reps_s.split(',') {
                     let Some((i, sh)) = e.split_once('@') else { return "bad-case".into() };
                     let (Ok(i), Ok(sh)) = (i.parse::<u64>(), sh.parse::<u32>()) else { return "bad-case".into() };
-                    if !peers.iter().any(|p| p.id == i) {
+                    if !is_thplan && !peers.iter().any(|p| p.id == i) {
                         return "bad-case".into();
                     }
                     reps.push((i, sh));
@@ -463,6 +556,33 @@ pub fn run(case: &str, ctx: &mut Ctx) -> String {
     } else {
         None
     };
+    // thplan: the tablets as learnt, and the ones the property lets survive the history - a tablet is dropped by the first
+    // refresh after which one of its replicas is not a known node (removed, or still unknown); written from the doc comment
+    // of TabletsInfo::perform_maintenance, independent of the Lean model
+    let learnt: Vec<TabletSpec> = if is_thplan { tablets.clone().unwrap_or_default() } else { Vec::new() };
+    let mut th_steps: Vec<Vec<PeerSpec>> = Vec::new();
+    let tablets: Option<Vec<TabletSpec>> = if is_thplan {
+        for (_, t) in history.as_ref().unwrap() {
+            let Some(p) = parse_topology(t) else { return "bad-case".into() };
+            if p.iter().any(|x| x.flags.contains('s') || x.flags.contains('a') == x.flags.contains('d')) {
+                return "bad-case".into();
+            }
+            th_steps.push(p);
+        }
+        let known_in = |i: usize, id: u64| th_steps[i].iter().any(|p| p.id == id);
+        if th_steps.len() == 1 && learnt.iter().any(|t| t.2.iter().any(|r| !known_in(0, r.0))) {
+            return "bad-case".into();
+        }
+        Some(
+            learnt
+                .iter()
+                .filter(|t| t.2.iter().all(|r| (1..th_steps.len()).all(|i| known_in(i, r.0))))
+                .cloned()
+                .collect(),
+        )
+    } else {
+        tablets
+    };
     let mut sharders: HashMap<uuid::Uuid, (u16, u8)> = HashMap::new();
     let mut sharder_by_id: HashMap<u64, (u16, u8)> = HashMap::new();
     for p in &peers {
@@ -476,6 +596,26 @@ pub fn run(case: &str, ctx: &mut Ctx) -> String {
         }
     }
     let cs = match &history {
+        Some(steps) if is_thplan => {
+            let key = format!("TH {} {}", w0[1..w0.len() - 4].join(" "), w0[w0.len() - 2]);
+            let (cs, msgs) = HCACHE.with(|c| {
+                let mut c = c.borrow_mut();
+                if let Some(e) = c.get(&key) {
+                    return e.clone();
+                }
+                if c.len() >= 16 {
+                    c.clear();
+                }
+                let e = build_tablet_history(steps, &th_steps, &kss, &learnt);
+                let e = (Rc::new(e.0), e.1);
+                c.insert(key, e.clone());
+                e
+            });
+            for m in msgs {
+                ctx.fail(m);
+            }
+            cs
+        }
         None => cluster(w[1], &peers, w[2], &kss, &sharders, tablets.as_ref().map(|t| (w[5], t.as_slice()))),
         Some(steps) => {
             // no sharders on history states (node objects are re-created by refreshes)
@@ -706,9 +846,26 @@ pub fn run(case: &str, ctx: &mut Ctx) -> String {
                 }
             }
         };
-        let picked: Option<Obs> = policy.pick(&ri, &cs).map(|(n, s)| (node_id(n.host_id), s));
+        // every node the policy hands out must be the `Node` object of the CURRENT cluster state (a stale object - one a
+        // refresh has replaced - carries the old datacenter, the old host-filter verdict and the old connection pool)
+        let mut not_current: Vec<u64> = Vec::new();
+        let mut see = |n: &Arc<scylla::cluster::Node>| {
+            if !cs.get_node_by_host_id(n.host_id).is_some_and(|c| Arc::ptr_eq(c, n)) {
+                not_current.push(node_id(n.host_id));
+            }
+        };
+        let picked: Option<Obs> = policy.pick(&ri, &cs).map(|(n, s)| {
+            see(n);
+            (node_id(n.host_id), s)
+        });
         set_flipped(true);
-        let fb: Vec<Obs> = policy.fallback(&ri, &cs).map(|(n, s)| (node_id(n.host_id), s)).collect();
+        let fb: Vec<Obs> = policy
+            .fallback(&ri, &cs)
+            .map(|(n, s)| {
+                see(n);
+                (node_id(n.host_id), s)
+            })
+            .collect();
         set_flipped(false);
         let plan: Vec<(u64, u32)> = {
             // first `next()` (= pick) on the first snapshot, everything after it (fallback is computed at the second
@@ -716,16 +873,28 @@ pub fn run(case: &str, ctx: &mut Ctx) -> String {
             let mut it = Plan::new(&*policy, &ri, &cs);
             let mut v: Vec<(u64, u32)> = Vec::new();
             if let Some((n, shard)) = it.next() {
+                see(n);
                 v.push((node_id(n.host_id), shard));
                 // (when `pick()` answers nothing - which does not depend on the random choices - `Plan` has already
                 // created the LAZY fallback iterator inside this first `next()`; a flip would then be seen element by
                 // element, which `plan2` does not model: no flip in that case)
                 set_flipped(picked.is_some());
-                v.extend(it.map(|(n, shard)| (node_id(n.host_id), shard)));
+                v.extend(it.map(|(n, shard)| {
+                    see(n);
+                    (node_id(n.host_id), shard)
+                }));
                 set_flipped(false);
             }
             v
         };
+        not_current.sort_unstable();
+        not_current.dedup();
+        for id in &not_current {
+            ctx.fail(format!(
+                "sample {}: the policy hands out a Node object of host {} that is not the one of the current cluster state (stale object)",
+                k, id
+            ));
+        }
         let plan_ids: Vec<u64> = plan.iter().map(|x| x.0).collect();
 
         // ---- oracle on the plan
@@ -1140,6 +1309,12 @@ fn tagged(line: String) -> String {
         let tag = t.split(' ').next().unwrap_or("plan").trim_start_matches("plan").to_owned();
         return format!("hplan{} {}", tag, w[1..].join(" "));
     }
+    if w[0] == "thplan" && w.len() >= 9 {
+        let k = w.len();
+        let t = tagged(format!("plan - - {} {} {}", w[k - 4], w[k - 3], w[k - 1]));
+        let tag = t.split(' ').next().unwrap_or("plan").trim_start_matches("plan").to_owned();
+        return format!("thplan{} {}", tag, w[1..].join(" "));
+    }
     if w.len() == 7 && w[0] == "xplan" {
         let t = tagged(format!("plan {} {} {} {} {}", w[1], w[2], w[3], w[4], w[6]));
         let tag = t.split(' ').next().unwrap_or("plan").trim_start_matches("plan").to_owned();
@@ -1511,6 +1686,133 @@ pub fn generate(rng: &mut Rng, tier: Tier, emit0: &mut dyn FnMut(String)) {
         }
     }
 
+    // 3f. tablet tables on refresh histories (`thplan`): the tablets are learnt on the first state; in the refreshes that
+    // follow, replicas of those tablets get their Node object RE-CREATED (datacenter / rack / address change, host-filter
+    // verdict flipping) - mostly WITHOUT any node leaving and without unknown replicas in the same refresh, so that the
+    // re-created nodes alone must make TabletsInfo::perform_maintenance walk the tablets -, sometimes leave (the tablet is
+    // dropped) or join (an unknown replica gets resolved).  Requests are mostly token-aware requests on the tablet table.
+    for _ in 0..if quick { 450 } else { 7000 } {
+        let mut peers = gen_topology(rng, hshape);
+        if peers.len() < 3 {
+            continue;
+        }
+        let kss: Vec<Strat> = vec![gen_strategy(rng, &peers), gen_strategy(rng, &peers)];
+        let verdict = |rng: &mut Rng| -> String {
+            match rng.below(10) {
+                0 | 1 => "d".into(),
+                2 => "ax".into(),
+                _ => "a".into(),
+            }
+        };
+        for p in peers.iter_mut() {
+            p.flags = verdict(rng);
+        }
+        let next_id = peers.iter().map(|p| p.id).max().unwrap_or(0) + 1;
+        let n_steps = rng.range(1, 3) as usize;
+        // tablets over the first peers; rarely a replica that is unknown yet (it may join in a later step)
+        let unknown_ok = rng.chance(1, 6);
+        let first_peers = peers.clone();
+        let gen_reps = |rng: &mut Rng| -> String {
+            let k = rng.range(1, 3.min(first_peers.len() as i64)) as usize;
+            let mut idx: Vec<usize> = (0..first_peers.len()).collect();
+            rng.shuffle(&mut idx);
+            let mut reps: Vec<(u64, u64)> = idx.into_iter().take(k).map(|i| (first_peers[i].id, rng.below(5))).collect();
+            if unknown_ok && rng.chance(1, 2) {
+                reps.push((next_id, rng.below(5)));
+            }
+            reps.iter().map(|(i, s)| format!("{}@{}", i, s)).collect::<Vec<_>>().join(",")
+        };
+        let toks0 = query_tokens(&peers);
+        let tablet = if rng.chance(1, 3) {
+            let mut cuts: Vec<i64> = (0..rng.range(1, 3)).map(|_| *rng.pick(&toks0)).filter(|t| *t > i64::MIN + 1).collect();
+            cuts.sort_unstable();
+            cuts.dedup();
+            let mut parts: Vec<String> = Vec::new();
+            let mut first = i64::MIN + 1;
+            for c in cuts.iter().chain(std::iter::once(&i64::MAX)) {
+                if *c < first {
+                    continue;
+                }
+                if rng.chance(5, 6) {
+                    parts.push(format!("{}:{}:{}", first, c, gen_reps(rng)));
+                }
+                if *c == i64::MAX {
+                    break;
+                }
+                first = c + 1;
+            }
+            if parts.is_empty() { gen_reps(rng) } else { parts.join("|") }
+        } else {
+            gen_reps(rng)
+        };
+        let mut steps: Vec<String> = vec![format!("N {}", fmt_topology(&peers))];
+        for step in 0..n_steps {
+            for p in peers.iter_mut() {
+                match rng.below(12) {
+                    0 | 1 => p.rack = Some(rng.below(3) as u32),
+                    2 | 3 => p.dc = Some(rng.below(2) as u32),
+                    // the verdict flips (e.g. a datacenter host filter and a node that moved)
+                    4 | 5 => p.flags = if p.flags.contains('a') { "d".into() } else { "a".into() },
+                    6 => p.flags = verdict(rng),
+                    _ => {}
+                }
+            }
+            match rng.below(10) {
+                0 if peers.len() > 3 => {
+                    let i = rng.below(peers.len() as u64) as usize;
+                    peers.remove(i);
+                }
+                1 | 2 if unknown_ok && !peers.iter().any(|p| p.id == next_id) => peers.push(PeerSpec {
+                    id: next_id,
+                    dc: Some(rng.below(2) as u32),
+                    rack: Some(rng.below(3) as u32),
+                    tokens: vec![rng.range(100, 100_000) * 7 + step as i64],
+                    flags: verdict(rng),
+                }),
+                // positions change: the address of every later peer changes
+                3 => rng.shuffle(&mut peers),
+                _ => {}
+            }
+            steps.push(format!("{} {}", *rng.pick(&["F", "G"]), fmt_topology(&peers)));
+        }
+        if n_steps == 0 {
+            continue;
+        }
+        let toks = query_tokens(&peers);
+        for _ in 0..5 {
+            let pref = match rng.below(6) {
+                0 => gen_pref(rng, &peers, true),
+                1 | 2 => Pref::Dc(rng.below(2) as u32),
+                _ => Pref::DcRack(rng.below(2) as u32, rng.below(3) as u32),
+            };
+            let cfg = format!(
+                "{}/{}/{}/{}",
+                pref.fmt(),
+                if rng.chance(11, 12) { "t" } else { "n" },
+                if rng.chance(1, 2) { "f" } else { "n" },
+                if rng.chance(3, 4) { "s" } else { "x" }
+            );
+            emit(format!(
+                "thplan {} {} {} {} {}/{}/{}/{}/-/{} {} {}",
+                steps.len(),
+                steps.join(" "),
+                fmt_strategies(&kss),
+                cfg,
+                if rng.chance(1, 12) { "-".to_owned() } else { rng.pick(&toks).to_string() },
+                match rng.below(12) {
+                    0 => "1",
+                    1 => "-",
+                    _ => "0",
+                },
+                if rng.chance(1, 3) { 1 } else { 0 },
+                *rng.pick(&["one", "lq", "quorum", "serial"]),
+                gen_pref(rng, &peers, false).fmt(),
+                tablet,
+                samples
+            ));
+        }
+    }
+
     // 3e. two liveness snapshots: the connected-override of one or two nodes is inverted between the first and the second
     // `Plan::next()` - mostly of nodes that are likely to be picked (live replicas), also of down nodes coming back
     for _ in 0..if quick { 350 } else { 6000 } {
@@ -1616,6 +1918,10 @@ pub fn generate(rng: &mut Rng, tier: Tier, emit0: &mut dyn FnMut(String)) {
         "tplan 1:0:0:5 S1 a/t/f/s 5/0/0/one/-/a 9@0 3",
         "tplan 1:0:0:5 S1 a/t/f/s 5/0/0/one/-/a 1 3",
         "tplan 1:0:0:5 S1 a/t/f/s 5/0/0/one/-/a 1@0 0",
+        "thplan 1 N 1:0:0:5:a S1 a/t/f/s 5/0/0/one/-/a 9@0 3",
+        "thplan 2 N 1:0:0:5:a R 1:0:1:5:a S1 a/t/f/s 5/0/0/one/-/a 1@0 3",
+        "thplan 2 N 1:0:0:5 F 1:0:1:5:a S1 a/t/f/s 5/0/0/one/-/a 1@0 3",
+        "thplan 2 N 1:0:0:5:a F 1:0:1:5:a S1 a/t/f/s 5/0/0/one/-/a 1@0",
     ] {
         emit(bad.to_owned());
     }
